@@ -94,3 +94,66 @@ def correspondence(tier, seed, corpus=()):
                 mismatches=mism, n_mismatch=len(bad), problems=problems[:5], n_problems=len(problems),
                 samples=[dict(case=kept[i][0], result=kept[i][1]) for i in range(min(2, len(kept)))],
                 distribution=dict(step_option=hist, outcomes=paths, fresh_leaves_created=fresh))
+
+
+# ------------------------------------------------------------------ failing-input search (implementation only)
+def trials(tier, seed):
+    n = 40 if tier == "quick" else 400
+    for k in range(n):
+        for name in S.STEP_NAMES:
+            kinds, lits = S.STEPS[name]
+            for o in (lits + [None]) if lits else [None]:
+                for comp in ((False, True) if name != "linear_optimization_step" else (False,)):
+                    yield dict(step=name, opt=o, seed=seed * 1000003 + k, composite=comp)
+
+
+def search(tier, seed):
+    """real members with computable steps (exact Fractions): run the real step through PEPit, value the fresh
+    leaves with the real outputs, check every recorded sample and constraint; first failure = replay"""
+    for d in trials(tier, seed):
+        try:
+            bad = S.semantic_trial(d)
+        except Exception as e:
+            return dict(kind="implementation-raised", trial=d, error=repr(e))
+        if bad:
+            return dict(trial=d, **bad)
+    return None
+
+
+def replay(payload):
+    """True iff the stored case still fails on the current implementation"""
+    if "trial" in payload:
+        try:
+            return S.semantic_trial(payload["trial"]) is not None
+        except Exception:
+            return True
+    if "case" in payload:
+        try:
+            lit, dump, info = S.run_impl(payload["case"])
+        except Exception:
+            return True
+        if not info["stat_ok"]:
+            return True
+        return bool(run_cases("c08r", IMPORTS, RUN, [(lit, dump)], input_type=INPUT_TYPE))
+    return False
+
+
+def known_findings(known):
+    """no open finding is listed for C08; a listed one would be replayed by its stored trial"""
+    out = []
+    for k in known:
+        trig = k.get("trigger", {})
+        still = replay(trig) if ("trial" in trig or "case" in trig) else False
+        out.append((k["id"], still, k.get("what", "")))
+    return out
+
+
+def is_known(payload, known):
+    for k in known:
+        trig = k.get("trigger", {})
+        if "trial" in trig and payload.get("trial") and \
+                {a: trig["trial"].get(a) for a in ("step", "opt", "composite")} == \
+                {a: payload["trial"].get(a) for a in ("step", "opt", "composite")} and \
+                trig.get("kind") == payload.get("kind"):
+            return k["id"]
+    return None
